@@ -32,6 +32,9 @@ POOL = c09.POOL + [
     "$fz.k", "{a => $fz.k, b => [], c => $cfg.k}",
     # values of the shared context used where they must be hashed
     "[$fz.a, $fz.b].distinct().len()", "[$fz.a, $fz.b, $fz.a].toSet().len() + $.len()", "$.select($fz.b).distinct().len()",
+    # several time zone offsets in one statement
+    "[datetime(2020, 1, 1, 3, 0, 0, 0, timespan(hours => 3)), datetime(2020, 1, 1, 3, 0, 0, 0, timespan(hours => -5))].select([$.offset.hours, $.utc.hour]) + [$.len()]",
+    "[datetime('2020-01-01T03:00:00').replace(offset => timespan(hours => $.len())), datetime(2020, 6, 1, offset => timespan(minutes => -90))].select($.format('%H:%M%z'))",
 ]
 FZ = {'k': [1, 2, 3], 'a': {'x': 1, 'y': [1, 2], 'z': 'zz', 'w': None}, 'b': {'w': None, 'z': 'zz', 'y': [1, 2], 'x': 1}}
 DATAS = [[3, 1, 2], [1, 2, 3, 4], [5, 2, 2]]
@@ -194,6 +197,102 @@ def write_point_preemption(rep, rng, quick, baseline):
         for cls, orig in saved:
             cls.__setattr__ = orig
     return runs
+
+
+def global_store_preemption(rep, rng, quick, baseline):
+    """the same single preemption, placed after every store to a module global or a closure cell that an evaluation performs
+    inside the yaql package (per-call scratch state parked at module level is shared by every thread of the process): opcode
+    tracing of the suspended thread finds the stores, the other evaluation runs to completion right after each"""
+    import dis
+    import os
+    import yaql
+    from yaql.language import utils as yutils
+    root = os.path.dirname(os.path.abspath(yaql.__file__)) + os.sep
+    gstores = set(dis.opmap[n] for n in ('STORE_GLOBAL', 'DELETE_GLOBAL') if n in dis.opmap)
+    dstores = set(dis.opmap[n] for n in ('STORE_DEREF', 'DELETE_DEREF') if n in dis.opmap)
+    free = {}
+    engine = yaql.YaqlFactory().create()
+    hook = {'armed': False, 'k': -1, 'n': 0, 'fire': None, 'pending': False}
+
+    def local(frame, event, arg):
+        if hook['pending']:
+            hook['pending'] = False
+            if hook['armed']:
+                hook['n'] += 1
+                if hook['n'] == hook['k']:
+                    hook['armed'] = False
+                    hook['fire']()
+        if event == 'opcode':
+            code = frame.f_code
+            op = code.co_code[frame.f_lasti]
+            if op in gstores:
+                hook['pending'] = True
+            elif op in dstores:
+                # a store through a closure cell counts when the cell belongs to an enclosing scope (nonlocal), not to this call
+                key = (code, frame.f_lasti)
+                if key not in free:
+                    try:
+                        free[key] = code._varname_from_oparg(code.co_code[frame.f_lasti + 1]) in code.co_freevars
+                    except Exception:  # noqa
+                        free[key] = True
+                if free[key]:
+                    hook['pending'] = True
+        return local
+
+    def tracer(frame, event, arg):
+        if event == 'call' and frame.f_code.co_filename.startswith(root):
+            frame.f_trace_opcodes = True
+            return local
+        return None
+
+    def one(i, j, k):
+        shared = yaql.create_context()
+        shared['cfg'] = {'k': [1, 2, 3]}
+        shared['fz'] = yutils.convert_input_data(copy.deepcopy(FZ))
+        shared = with_helpers(shared).create_child_context()
+        shared['lim'] = 2
+        sa = engine(POOL[i])
+        sb = sa if i == j else engine(POOL[j])
+        res = {}
+
+        def fire():
+            def body():
+                res['b'] = outcome(lambda: sb.evaluate(data=copy.deepcopy(DATAS[1]), context=shared.create_child_context()))
+            th = threading.Thread(target=body)
+            th.start()
+            th.join()
+        hook.update(armed=True, k=k, n=0, fire=fire, pending=False)
+        ca = shared.create_child_context()
+        da = copy.deepcopy(DATAS[0])
+        old = sys.gettrace()
+        sys.settrace(tracer)
+        try:
+            res['a'] = outcome(lambda: sa.evaluate(data=da, context=ca))
+        finally:
+            sys.settrace(old)
+            hook['armed'] = False
+        return res, hook['n']
+    runs = 0
+    points = 0
+    pairs = [(i, i) for i in range(len(POOL))] + [(i, (i * 7 + 3) % len(POOL)) for i in range(len(POOL))]
+    if quick:
+        pairs = pairs[:len(POOL)] + pairs[len(POOL)::4]
+    for (i, j) in pairs:
+        if INT_LIMIT and ('5000' in POOL[i] or '6000' in POOL[i]):
+            continue            # (opcode tracing of the big-number statements is slow; they have their own round)
+        _, n = one(i, j, -1)
+        points += n
+        for k in range(1, min(n, 12 if quick else 60) + 1):
+            res, _ = one(i, j, k)
+            runs += 1
+            rep.evaluations += 2
+            for who, idx, d in (('a', i, DATAS[0]), ('b', j, DATAS[1])):
+                if who in res and not same(res[who], baseline(idx, d)):
+                    rep.violation('C18/global-store-preemption/result-differs',
+                                  '%r suspended after its store no. %d to a module global / closure cell while %r ran to completion in another thread: %s gave %r, alone it gives %r' % (
+                                      POOL[i], k, POOL[j], 'the suspended one' if who == 'a' else 'the other', res[who], baseline(idx, d)),
+                                  {'statements': [POOL[i], POOL[j]], 'store': k})
+    return runs, points
 
 
 INT_LIMIT = sys.get_int_max_str_digits() if hasattr(sys, 'get_int_max_str_digits') else 0
@@ -391,6 +490,9 @@ def run(rep, tier, seed, keep=False):
         rec.uninstall()
         nwp = write_point_preemption(rep, rng, quick, baseline)
         rep.extra['shared_write_preemption_runs'] = nwp
+        ngs, npts = global_store_preemption(rep, rng, quick, baseline)
+        rep.extra['global_store_preemption_runs'] = ngs
+        rep.extra['global_store_points_seen'] = npts
         rec.install()
         tri = [tuple(rng.sample(range(len(POOL)), 3)) for _ in range(10 if quick else 150)] + [(6, 6, 6), (7, 6, 7)]
         for t3 in tri:
